@@ -1,6 +1,9 @@
 import PfModel.DriverVal
 import PfModel.Model.PipelineEntries
-/-! Driver for C02: `run`, `argcombos`, and the other entry points `func`, `callroot`, `callleaf`, `getitem`, `pfcall`. -/
+import PfModel.Model.PipelineSession
+import PfModel.Model.PipelineView
+/-! Driver for C02: `run`, `argcombos`, and the other entry points `func`, `callroot`, `callleaf`, `getitem`, `pfcall`; `session` (calls
+    interleaved with in-place edits on one object, `PF.Pipe.cachedRun`); `pfpos` (`PipeFunc.__call__` with positional arguments). -/
 open Lean PF PF.Drv PF.Pipe
 
 /-- `{"name": "f", "params": [["p", "orig"], …], "outputs": ["a", "b"], "defaults": [["p", v]], "bound": [["p", v]]}` -/
@@ -35,11 +38,94 @@ def putOutcome (fs : List Func) (kw : List (String × Val)) (req : Req) (o : Out
   let spec : Json := match req with
     | .name n => match compose fs kw (fuelFor fs) n with | .ok v => putVal v | .error _ => Json.null
     | .whole _ => Json.null
-  jObj [("value", putVal o.value), ("full", putKw o.full), ("calls", jList jStr o.calls), ("spec", spec)]
+  jObj [("value", putVal o.value), ("full", putKw o.full), ("calls", jList jStr o.calls), ("spec", spec),
+        ("fullview", putKw (fullView req o false)), ("fullview_cf", putKw (fullView req o true))]
+
+
+/-! ### sessions -/
+
+def getEdit (j : Json) : R Edit := do
+  match ← strF j "k" with
+  | "member-defaults" => return .memberDefaults (← strF j "fn") (← strF j "p") (← getVal (← fld j "v"))
+  | "member-bound" => return .memberBound (← strF j "fn") (← strF j "p") (← getVal (← fld j "v"))
+  | "member-rename" => return .memberRename (← strF j "fn") (← strF j "old") (← strF j "new")
+  | "pipe-defaults" => return .pipeDefaults (← strF j "p") (← getVal (← fld j "v"))
+  | "pipe-rename" => return .pipeRename (← strF j "old") (← strF j "new")
+  | k => .error s!"unknown edit {k}"
+
+def getQuery (m : String) (a : Json) : R Query := do
+  match m with
+  | "run" => return .run (← getKw (← fld a "kw")) (← getReq (← fld a "out"))
+  | "func" => return .func (← getKw (← fld a "kw")) (← getReq (← fld a "out"))
+  | "callroot" => return .callRoot (← getReq (← fld a "out")) (← listF getVal a "pos") (← getKw (← fld a "kw"))
+  | "callleaf" => return .callLeaf (← getKw (← fld a "kw"))
+  | "pfcall" => return .pfCall (← getReq (← fld a "out")) (← getKw (← fld a "kw"))
+  | "argcombos" => return .argCombos (← strF a "out")
+  | "defaults" => return .defaults
+  | m => .error s!"unknown session query {m}"
+
+def getStep (j : Json) : R Step := do
+  match ← strF j "k" with
+  | "edit" => return .edit (← getEdit (← fld j "e"))
+  | "q" => return .query ((← optF asBool j "fill").getD true) (← getQuery (← strF j "m") (← fld j "a"))
+  | k => .error s!"unknown step {k}"
+
+def putEditErr : EditErr → Json
+  | .unknownKey => jObj [("err", jStr "ValueError"), ("why", jStr "unknownKey")]
+  | .noMember => jObj [("err", jStr "KeyError"), ("why", jStr "noMember")]
+  | .outside => jObj [("outside", jBool true)]
+
+/-- the request a query is about, on the functions it is asked of (for the dictionary view of `full_output`) -/
+def queryReq (fs : List Func) : Query → Option Req
+  | .run _ r => some r
+  | .func _ r => some r
+  | .callRoot r _ _ => some r
+  | .callLeaf _ => match leafFuncs fs with | [f] => some (reqOf f) | _ => none
+  | _ => none
+
+def putAnswer (fs : List Func) (q : Option Query) : Answer → Json
+  | .outcome (.error e) => putEErr e
+  | .outcome (.ok o) =>
+    let req := (q.bind (queryReq fs)).getD (.name "")
+    jObj [("value", putVal o.value), ("calls", jList jStr o.calls),
+          ("full", putKw (fullView req o false)), ("full_cf", putKw (fullView req o true))]
+  | .value none => jObj [("err", jStr "KeyError")]
+  | .value (some (.error e)) => putEErr e
+  | .value (some (.ok v)) => jObj [("value", putVal v)]
+  | .combos c r => jObj [("combos", jOpt (jList (jList jStr)) c), ("root_args", jOpt (jList jStr) r)]
+  | .table d => jObj [("table", putKw (adedup d.reverse))]
+  | .edited none => jObj [("edit", jStr "ok")]
+  | .edited (some e) => putEditErr e
+
+/-- runs `cachedRun` step by step (the same recursion, keeping the functions each answer was given on, for the views) -/
+def sessionJson (s : PState) : List Step → List Json
+  | [] => []
+  | st :: rest =>
+    let (a, s') := cachedStep s st
+    let q := match st with | .query _ q => some q | .edit _ => none
+    let j := putAnswer s.fs q a
+    let j := match st with
+      | .edit _ => j.mergeObj (jObj [("names_ok", jBool (namesOk s'.fs))])
+      | _ => j
+    j :: sessionJson s' rest
 
 def handle (m : String) (a : Json) : R Json := do
   let fs ← listF getFunc a "funcs"
   match m with
+  | "session" =>
+    let steps ← listF getStep a "steps"
+    return jObj [("answers", jArr (sessionJson (PState.init fs) steps))]
+  | "pfpos" =>
+    -- `pipeline[out](*pos, **kw)`: the producing PipeFunc called directly with positional arguments
+    let kw ← getKw (← fld a "kw")
+    let pos ← listF getVal a "pos"
+    let req ← getReq (← fld a "out")
+    match getItem fs req with
+    | none => return jObj [("err", jStr "KeyError")]
+    | some f =>
+      match pfCallPos f pos kw with
+      | .error e => return putEErr e
+      | .ok v => return jObj [("value", putVal v), ("name", jStr f.name)]
   | "func" =>
     let kw ← getKw (← fld a "kw")
     let req ← getReq (← fld a "out")
@@ -87,7 +173,8 @@ def handle (m : String) (a : Json) : R Json := do
       let spec : Json := match req with
         | .name n => match compose fs kw (fuelFor fs) n with | .ok v => putVal v | .error _ => Json.null
         | .whole _ => Json.null
-      return jObj [("value", putVal o.value), ("full", putKw o.full), ("calls", jList jStr o.calls), ("spec", spec)]
+      return jObj [("value", putVal o.value), ("full", putKw o.full), ("calls", jList jStr o.calls), ("spec", spec),
+                   ("fullview", putKw (fullView req o false)), ("fullview_cf", putKw (fullView req o true))]
   | "argcombos" =>
     let o ← strF a "out"
     return jObj [("combos", jOpt (jList (jList jStr)) (argCombinations fs o)), ("root_args", jOpt (jList jStr) (rootArgs fs o)),
